@@ -271,15 +271,18 @@ class SymbolLatexPrinter(LatexPrinter):  # type: ignore[misc]
     def _print_Add(self, expr: Expr, _order: bool = False) -> str:
         tex = ""
         for i, term in enumerate(expr.args):
+            # a sum that is left after extracting the minus sign of a term needs brackets
+            negated = False
             if i == 0:
                 pass
             elif term.could_extract_minus_sign():
                 tex += " - "
                 term = -term
+                negated = True
             else:
                 tex += " + "
             term_tex = self._print(term)
-            if self._needs_add_brackets(term):
+            if self._needs_add_brackets(term) or (negated and term.is_Add):
                 term_tex = f"\\left({term_tex}\\right)"
             tex += term_tex
 
